@@ -7,6 +7,7 @@ import sys
 
 HERE = os.path.dirname(os.path.abspath(__file__))
 sys.path.insert(0, HERE)
+from zsa import core  # noqa: E402
 
 props = [json.loads(l) for l in open(os.path.join(HERE, "properties.jsonl"))]
 checks, na = [], []
@@ -29,8 +30,8 @@ for p in props:
         "engine": "zsa",
         "level_claimed": {
             "category": "other",
-            "text": mod.EXPLANATION,
-            "design_ref": "DESIGN.md §4 %s" % pid,
+            "text": core.full_explanation(mod),
+            "design_ref": "DESIGN.md §4 %s, §11, §13" % pid,
         },
         "level_note": "Structural necessary conditions only; trusted base: rustc front end (HIR/typeck/MIR/const-eval), "
                       "driver/, zsa/ rule engine, spec/ RFC transcription, reviewed tables. " + "; ".join(mod.ASSUMPTIONS),
